@@ -310,3 +310,320 @@ DAI = Unit('C10', AC + 'determine_active_inactive', _dai_params, post=dai_post, 
            short='AutoChemistry.determine_active_inactive',
            doc='gases split by availability of opacity data, order preserved, masks are the indices (exhaustive over '
                'availability patterns of up to 3 gases)')
+
+
+from contracts import c12 as _c12          # movingaverage is used by contract (unit MA)
+
+
+# ================================================================== built-in abundance profiles: one finite value per layer, inside
+# the range of the control values, for every layer count >= 2
+GAS = 'taurex.data.profiles.chemistry.gas.'
+
+
+def _gas_native(modname, clsname, ctor, attr):
+    def native(c, p):
+        import importlib
+        import numpy as np
+        K = getattr(importlib.import_module(GAS + modname), clsname)
+        o = K(**ctor(p))
+        o.initialize_profile(nlayers=p['nlayers'], temperature_profile=np.array(p['temperature_profile'], dtype=float),
+                             pressure_profile=np.array(p['pressure_profile'], dtype=float), altitude_profile=None)
+        return None, dict(p, self=dict(p['self'], **{attr: np.asarray(getattr(o, attr), dtype=float)}))
+    return native
+
+
+def _atm(c, n):
+    return dict(nlayers=n, temperature_profile=c.array('T', (n,)), pressure_profile=c.array('P', (n,)), altitude_profile=None)
+
+
+def _atm_pre(c, v):
+    n = v.nlayers
+    return {'layers': n >= 2,
+            'pressure_decreasing_positive': c.And(c.Forall(0, n, lambda i: v.pressure_profile[i] > 0),
+                                                  c.Forall2((0, n), (0, n), lambda i, j: c.Implies(i < j, v.pressure_profile[i] > v.pressure_profile[j]))),
+            'temperature_positive': c.Forall(0, n, lambda i: v.temperature_profile[i] > 0)}
+
+
+def _atm_gen(rng, n=None):
+    n = n or rng.randint(2, 12)
+    P = sorted((10 ** rng.uniform(-4, 6) for _ in range(n)), reverse=True)
+    return dict(n=n, P=P, T=[rng.uniform(100, 3000) for _ in range(n)])
+
+
+# ------------------------------------------------------------------ ConstantGas
+CG = Unit('C10', GAS + 'constantgas:ConstantGas.initialize_profile',
+          lambda c: dict(self=ObjSpec('ConstantGas', _mix_ratio=c.real('mix'), _mix_array=None), **_atm(c, c.int('n'))),
+          pre=_atm_pre, frame_attrs=['_mix_array'],
+          post=lambda c, v0, v1, r: {'one_value_per_layer': c.Len(v1.self._mix_array) == v0.nlayers,
+                                     'the_control_value': c.Forall(0, v0.nlayers, lambda i: c.Eq(v1.self._mix_array[i], v0.self._mix_ratio))},
+          native=_gas_native('constantgas', 'ConstantGas', lambda p: dict(molecule_name='H2O', mix_ratio=p['self']['_mix_ratio']), '_mix_array'),
+          gen=lambda rng: dict(_atm_gen(rng), mix=10 ** rng.uniform(-12, -1)), bounds=[dict(n=2), dict(n=3)],
+          short='ConstantGas.initialize_profile', doc='constant abundance: one entry per layer, all equal to the control value')
+
+
+# ------------------------------------------------------------------ TwoPointGas: straight line in (log10 P, log10 mix) through the end points
+def _tp_line(c, v0, i):
+    ls, lt = c.log10(v0.self._mix_surface), c.log10(v0.self._mix_top)
+    ps, pt = c.log10(v0.pressure_profile[0]), c.log10(v0.pressure_profile[v0.nlayers - 1])
+    a = (ls - lt) / (ps - pt)
+    b = ls - a * ps
+    return a * c.log10(v0.pressure_profile[i]) + b
+
+
+def _tp_post(c, v0, v1, r):
+    n = v0.nlayers
+    m = v1.self._mix_profile
+    return {'one_value_per_layer': c.Len(m) == n,
+            'surface_and_top_are_the_control_values': c.And(c.Eq(m[0], v0.self._mix_surface), c.Eq(m[n - 1], v0.self._mix_top)),
+            'log_log_line_between': c.Forall(1, n - 1, lambda i: c.Eq(m[i], c.pow10(_tp_line(c, v0, i)))),
+            'between_the_control_values': c.ForallH(0, n, lambda i: _tp_between(c, v0, m, i))}
+
+
+def _tp_between(c, v0, m, i):
+    s, t = v0.self._mix_surface, v0.self._mix_top
+    lo, hi = c.Min(s, t), c.Max(s, t)
+    goal = c.And(lo <= m[i], m[i] <= hi)
+    if c.mode != 'sym':
+        return c.And(lo * (1 - 1e-9) <= m[i], m[i] <= hi * (1 + 1e-9))
+    n = v0.nlayers
+    ls, lt = c.log10(s), c.log10(t)
+    ps, pt = c.log10(v0.pressure_profile[0]), c.log10(v0.pressure_profile[n - 1])
+    x = c.log10(v0.pressure_profile[i])
+    y = _tp_line(c, v0, i)
+    lam, dlam = c.define('lam', (x - pt) / (ps - pt))
+    a = (ls - lt) / (ps - pt)
+    return c.hint(goal,
+                  c.And(pt <= x, x <= ps, pt < ps),                                   # log10 increasing, pressures decreasing
+                  c.And(0 <= lam, lam <= 1, lam * (ps - pt) == x - pt),
+                  a * (ps - pt) == ls - lt,
+                  y == lam * ls + (1 - lam) * lt,
+                  c.And(c.Min(ls, lt) <= y, y <= c.Max(ls, lt)),
+                  c.And(c.pow10(ls) == s, c.pow10(lt) == t),
+                  c.Implies(c.And(0 < i, i < n - 1), c.And(lo <= c.pow10(y), c.pow10(y) <= hi)),
+                  defs=[dlam])
+
+
+TPG = Unit('C10', GAS + 'twopointgas:TwoPointGas.initialize_profile',
+           lambda c: dict(self=ObjSpec('TwoPointGas', _mix_surface=c.real('surf'), _mix_top=c.real('top'), _mix_profile=None), **_atm(c, c.int('n'))),
+           pre=lambda c, v: dict(_atm_pre(c, v), controls_positive=c.And(v.self._mix_surface > 0, v.self._mix_top > 0)),
+           post=_tp_post, frame_attrs=['_mix_profile'], safety=('index', 'div', 'domain'),
+           native=_gas_native('twopointgas', 'TwoPointGas', lambda p: dict(molecule_name='H2O', mix_ratio_surface=p['self']['_mix_surface'],
+                                                                         mix_ratio_top=p['self']['_mix_top']), '_mix_profile'),
+           gen=lambda rng: dict(_atm_gen(rng), surf=10 ** rng.uniform(-12, -1), top=10 ** rng.uniform(-12, -1)), bounds=[dict(n=2), dict(n=4)],
+           short='TwoPointGas.initialize_profile',
+           doc='two-point abundance: the control values at the bottom and top layer, the log-log straight line through them between')
+
+
+def _line_between(c):
+    """a straight line through (xs, ys) and (xt, yt) stays between ys and yt for x between xs and xt"""
+    xs, xt, ys, yt, x = z3.Reals('xs xt ys yt x')
+    a = (ys - yt) / (xs - xt)
+    y = a * x + (ys - a * xs)
+    lam = z3.Real('lam')
+    return [('convex_combination', [xt < xs, xt <= x, x <= xs, lam == (x - xt) / (xs - xt)],
+             c.hint(z3.And(y == lam * ys + (1 - lam) * yt, 0 <= lam, lam <= 1), lam * (xs - xt) == x - xt, a * (xs - xt) == ys - yt)),
+            ('between', [0 <= lam, lam <= 1, ys <= yt], z3.And(ys <= lam * ys + (1 - lam) * yt, lam * ys + (1 - lam) * yt <= yt)),
+            ('between_rev', [0 <= lam, lam <= 1, yt <= ys], z3.And(yt <= lam * ys + (1 - lam) * yt, lam * ys + (1 - lam) * yt <= ys))]
+
+
+Lemma('C10', 'line_between_its_end_points', _line_between,
+      doc='with log10 / 10** increasing (assumed axioms of the uninterpreted transcendentals) the two-point abundance lies between its '
+          'control values in every layer')
+
+
+# ------------------------------------------------------------------ ArrayGas: the given array, interpolated onto the layers
+def _ag_post(c, v0, v1, r):
+    n, A = v0.nlayers, v0.self._mix_ratio_array
+    K = c.Len(A)
+    m = v1.self._mix_array
+    d = {'one_value_per_layer': c.Len(m) == n}
+    if c.mode == 'conc':
+        lo, hi = min(A), max(A)
+        d['within_the_control_values'] = all(lo - 1e-12 * abs(lo) <= m[i] <= hi + 1e-12 * abs(hi) for i in range(n))
+        d['ends_are_the_end_values'] = c.And(c.Eq(m[0], A[0]), c.Eq(m[n - 1], A[K - 1]))
+        d['same_layer_count_reproduces_the_array'] = (n != K) or all(c.Eq(m[i], A[i]) for i in range(n))
+        return d
+    lo, hi = z3.Reals('lo? hi?')
+    d['within_the_control_values'] = z3.ForAll([lo, hi], z3.Implies(c.Forall(0, K, lambda j: z3.And(lo <= A[j], A[j] <= hi)),
+                                                                   c.Forall(0, n, lambda i: z3.And(lo <= m[i], m[i] <= hi))))
+    goal = c.And(c.Eq(m[0], A[0]), c.Eq(m[n - 1], A[K - 1]))
+    if c.mode != 'sym':
+        d['ends_are_the_end_values'] = goal
+        return d
+    one = lambda k: z3.ToReal(k - 1) / z3.ToReal(k - 1) == 1
+    d['ends_are_the_end_values'] = c.hint(goal, c.And(one(n), one(K)), 1 / z3.ToReal(K - 1) > 0, c.Eq(m[0], A[0]))
+    return d
+
+
+def _ag_native(c, p):
+    import numpy as np
+    from taurex.data.profiles.chemistry.gas.arraygas import ArrayGas
+    o = ArrayGas(molecule_name='H2O', mix_ratio_array=list(p['self']['_mix_ratio_array']))
+    o.initialize_profile(nlayers=p['nlayers'], temperature_profile=np.array(p['temperature_profile'], dtype=float),
+                         pressure_profile=np.array(p['pressure_profile'], dtype=float), altitude_profile=None)
+    return None, dict(p, self=dict(p['self'], _mix_array=np.asarray(o._mix_array, dtype=float)))
+
+
+AG = Unit('C10', GAS + 'arraygas:ArrayGas.initialize_profile',
+          lambda c: dict(self=ObjSpec('ArrayGas', _mix_ratio_array=c.array('A', (c.int('K'),)), _mix_array=None), **_atm(c, c.int('n'))),
+          pre=lambda c, v: dict(_atm_pre(c, v), at_least_two_control_values=c.Len(v.self._mix_ratio_array) >= 2),
+          post=_ag_post, frame_attrs=['_mix_array'], safety=('index', 'div', 'sorted'), native=_ag_native,
+          gen=lambda rng: (lambda K: dict(_atm_gen(rng, rng.choice([K, None])), K=K, A=[10 ** rng.uniform(-12, -1) for _ in range(K)]))(rng.randint(2, 7)),
+          bounds=[dict(n=2, K=2), dict(n=3, K=2)], short='ArrayGas.initialize_profile',
+          doc='array abundance: one value per layer, inside the range of the given values, first/last layer = first/last value '
+              '(np.linspace, np.interp: assumed models; a single control value is outside the linspace model)')
+
+
+# ------------------------------------------------------------------ PowerGas: (1/sqrt(ms) + 1/sqrt(Ad))**-2, never above the deep value
+_PG_CASES = [dict(known=k, given=g) for k in (True, False) for g in ('all', 'none', 'surface')]
+
+
+def _pg_params(c):
+    g = c.choice('given')
+    mk = lambda nm, on: c.real(nm) if on else None
+    return dict(self=ObjSpec('PowerGas', _profile_type='H2O', _mix_surface=mk('ms', g in ('all', 'surface')), _alpha=mk('alpha', g == 'all'),
+                             _beta=mk('beta', g == 'all'), _gamma=mk('gamma', g == 'all'), _mix_profile=None), **_atm(c, c.int('n')))
+
+
+def _pg_known(ex, st, args, kwargs, node):
+    """check_known: coefficients of the built-in table for a known molecule (positive deep abundance), four None otherwise"""
+    c = ex.c
+    if not c.fixed['known']:
+        return (None, None, None, None)
+    A = c.real('tabA')
+    st.assume(A > 0)
+    return (c.real('taba'), c.real('tabb'), c.real('tabg'), A)
+
+
+def _pg_coeffs(c, v0):
+    s = v0.self
+    known = (c.fixed if c.mode != 'conc' else c.values)['known']
+    tab = (c.real('taba'), c.real('tabb'), c.real('tabg'), c.real('tabA')) if known else (None,) * 4
+    pick = lambda own, t: own if own is not None else t
+    return pick(s._alpha, tab[0]), pick(s._beta, tab[1]), pick(s._gamma, tab[2]), pick(s._mix_surface, tab[3])
+
+
+def _pg_raises(c, v0):
+    return {'ValueError': any(x is None for x in _pg_coeffs(c, v0))}
+
+
+def _pg_post(c, v0, v1, r):
+    n = v0.nlayers
+    al, be, ga, ms = _pg_coeffs(c, v0)
+    m = v1.self._mix_profile
+    Ad = lambda i: c.pow10(-ga) * c.pow(v0.pressure_profile[i] * 1e-5, al) * c.pow10(be / v0.temperature_profile[i])
+    d = {'one_value_per_layer': c.Len(m) == n,
+         'documented_law': c.Forall(0, n, lambda i: c.Eq(m[i] * ((1 / c.sqrt(ms) + 1 / c.sqrt(Ad(i))) * (1 / c.sqrt(ms) + 1 / c.sqrt(Ad(i)))), 1.0))}
+    if c.mode == 'conc':
+        d['positive_at_most_the_deep_value'] = all(0 < m[i] <= ms * (1 + 1e-12) for i in range(n))
+        return d
+    d['positive_at_most_the_deep_value'] = c.ForallH(0, n, lambda i: _pg_bound(c, m[i], ms, Ad(i)))
+    return d
+
+
+def _pg_bound(c, mi, ms, ad):
+    a, da = c.define('a', 1 / c.sqrt(ms))
+    b, db = c.define('b', 1 / c.sqrt(ad))
+    return c.hint(c.And(0 < mi, mi <= ms), c.And(ad > 0, c.sqrt(ms) > 0, c.sqrt(ad) > 0), c.And(a > 0, b > 0), a * a * ms == 1,
+                  mi * ((a + b) * (a + b)) == 1, (a + b) * (a + b) >= a * a, c.And(mi > 0, mi * (a * a) <= 1), defs=[da, db])
+
+
+def _pg_native(c, p):
+    import numpy as np
+    from taurex.data.profiles.chemistry.gas.powergas import PowerGas
+    s = p['self']
+    o = PowerGas(molecule_name='H2O', profile_type='H2O', mix_ratio_surface=s['_mix_surface'], alpha=s['_alpha'], beta=s['_beta'], gamma=s['_gamma'])
+    o.debug = lambda *a, **k: None
+    if c.values['known']:
+        tab = (c.values['taba'], c.values['tabb'], c.values['tabg'], c.values['tabA'])
+    else:
+        tab = (None,) * 4
+    o.check_known = lambda molecule_name='H2O': tab
+    o.initialize_profile(p['nlayers'], np.array(p['temperature_profile'], dtype=float), np.array(p['pressure_profile'], dtype=float), None)
+    return None, dict(p, self=dict(s, _mix_profile=np.asarray(o._mix_profile, dtype=float)))
+
+
+def _pg_gen(rng):
+    d = _atm_gen(rng)
+    d.update(known=rng.choice([True, False]), given=rng.choice(['all', 'none', 'surface']), ms=10 ** rng.uniform(-10, -1), alpha=rng.uniform(0.5, 2.5),
+             beta=rng.uniform(1e4, 6e4), gamma=rng.uniform(5, 25), taba=rng.uniform(0.5, 2.5), tabb=rng.uniform(1e4, 6e4), tabg=rng.uniform(5, 25),
+             tabA=10 ** rng.uniform(-10, -1))
+    d['T'] = [rng.uniform(1000, 4000) for _ in range(d['n'])]
+    return d
+
+
+PG = Unit('C10', GAS + 'powergas:PowerGas.initialize_profile', _pg_params,
+          pre=lambda c, v: dict(_atm_pre(c, v), deep_value_positive=(v.self._mix_surface > 0) if v.self._mix_surface is not None else True),
+          post=_pg_post, raises=_pg_raises, frame_attrs=['_mix_profile'], safety=('index', 'div', 'domain'), cases=_PG_CASES,
+          abstract={'call:check_known': _pg_known}, native=_pg_native, gen=_pg_gen, bounds=[dict(n=2)], short='PowerGas.initialize_profile',
+          doc='power-law abundance: one positive value per layer, never above the deep-atmosphere value; coefficients the user left out come '
+              'from the built-in table (check_known abstract: any coefficients, positive deep value), a missing coefficient raises ValueError; '
+              'x**alpha uninterpreted, positive for a positive base')
+
+
+# ------------------------------------------------------------------ TwoLayerGas: two plateaus joined in log-log space, smoothed
+def _tl_params(c):
+    return dict(self=ObjSpec('TwoLayerGas', _mix_surface=c.real('surf'), _mix_top=c.real('top'), _mix_ratio_pressure=c.real('Pmix'),
+                             _mix_ratio_smoothing=c.real('smooth'), _mix_profile=None), **_atm(c, c.int('n')))
+
+
+def _tl_pre(c, v):
+    s = v.self
+    return dict(_atm_pre(c, v), controls_positive=c.And(s._mix_surface > 0, s._mix_top > 0, s._mix_ratio_pressure > 0),
+                smoothing_window_in_percent=c.And(s._mix_ratio_smoothing > 0, s._mix_ratio_smoothing < 100))
+
+
+def _tl_post(c, v0, v1, r):
+    n = v0.nlayers
+    m = v1.self._mix_profile
+    s, t = v0.self._mix_surface, v0.self._mix_top
+    lo, hi = c.Min(s, t), c.Max(s, t)
+    tol = 1e-9 if c.mode == 'conc' else 0
+    d = {'one_value_per_layer': c.Len(m) == n}
+    plain = lambda i: c.And(lo * (1 - tol) <= m[i], m[i] <= hi * (1 + tol))
+    if c.mode != 'sym':
+        d['within_the_control_values'] = c.Forall(0, n, plain)
+        return d
+    # ghost access to the locals at the return: the interpolated plateau profile, the smoothed core, window and border
+    from pyvc.core import View
+    loc = View(c, c.raw['state'].env, c.raw['state'].heap)
+    core, w, b = loc.C_smooth, loc.wsize, loc.border
+    R = c.last_interp                                     # log10 of the plateau profile (np.interp result)
+    ll, lh = c.log10(lo), c.log10(hi)
+    Rk = lambda k: R.elem((k,))
+    lem_R = c.ForallH(0, n, lambda k: c.And(ll <= Rk(k), Rk(k) <= lh))                      # interp stays between neighbouring nodes
+    ends = c.And(c.pow10(ll) == lo, c.pow10(lh) == hi)
+
+    chem = lambda k: c.pow10(Rk(k))      # the plateau profile as interpolated (the array itself is overwritten through the final view)
+
+    def chem_k(k):
+        inR = c.And(ll <= Rk(k), Rk(k) <= lh)
+        g = c.And(lo <= chem(k), chem(k) <= hi, ll <= c.log10(chem(k)), c.log10(chem(k)) <= lh)
+        return c.hint(g, inR, c.pure(g, inR, ends), final_uses=1)
+    lem_chem = c.ForallH(0, n, chem_k)
+    nc = n - w + 1
+    S = lambda j: c.Sum(j, j + w, lambda q: c.log10(chem(q)))
+    lem_sum = c.ForallH(0, nc, lambda j: c.hint(c.And(w * ll <= S(j), S(j) <= w * lh), c.sum_between(j, j + w, lambda q: c.log10(chem(q)), ll, lh)))
+
+    def core_j(j):
+        mj = core[j].arg(0)                                # core = 10**movingaverage(...): the window mean of the logarithms
+        a = mj * w == S(j)
+        bnd = c.And(w * ll <= S(j), S(j) <= w * lh)
+        inm = c.And(ll <= mj, mj <= lh)
+        g = c.And(lo <= core[j], core[j] <= hi)
+        return c.hint(g, core[j] == c.pow10(mj), a, bnd, c.pure(inm, a, bnd, w >= 1), c.pure(g, inm, core[j] == c.pow10(mj), ends), final_uses=1)
+    lem_core = c.ForallH(0, nc, core_j)
+    d['within_the_control_values'] = c.hint(c.Forall(0, n, plain), c.And(c.pow10(ll) == lo, c.pow10(lh) == hi, ll <= lh), lem_R, lem_chem,
+                                            c.And(w >= 1, w <= n, c.Len(core) == nc, 2 * b == w - 1), lem_sum, lem_core)
+    return d
+
+
+TLG = Unit('C10', GAS + 'twolayergas:TwoLayerGas.initialize_profile', _tl_params, pre=_tl_pre, post=_tl_post, frame_attrs=['_mix_profile'],
+           safety=('index', 'div', 'domain', 'sorted'),
+           native=_gas_native('twolayergas', 'TwoLayerGas', lambda p: dict(molecule_name='H2O', mix_ratio_surface=p['self']['_mix_surface'],
+                                                                         mix_ratio_top=p['self']['_mix_top'], mix_ratio_P=p['self']['_mix_ratio_pressure'],
+                                                                         mix_ratio_smoothing=p['self']['_mix_ratio_smoothing']), '_mix_profile'),
+           gen=lambda rng: dict(_atm_gen(rng, rng.randint(2, 60)), surf=10 ** rng.uniform(-12, -1), top=10 ** rng.uniform(-12, -1),
+                                Pmix=10 ** rng.uniform(-4, 6), smooth=rng.choice([10, 10, rng.uniform(1, 99)])),
+           bounds=[dict(n=3)], short='TwoLayerGas.initialize_profile',
+           doc='two-layer abundance: one value per layer, inside the range of the two control values, for every layer count >= 2')
